@@ -298,7 +298,7 @@ def main(prop):
                       "each chromosome name has a strict plurality in its component (ties are broken by set order)",
                       "biccs exactness is C15's subject (definition-level checker on the implementation's output, not a general theorem)"]
     ck.canon = ["L lines compared as a multiset", "BO/NO read from the written S lines", "log output ignored"]
-    ck.lean_build({"C06": ["Gaftools.Props.C06", "Gaftools.Props.C06b", "Gaftools.Props.C06c", "Gaftools.Props.C06d", "Gaftools.Props.C06e", "Gaftools.Props.C06f", "Gaftools.Props.C06g", "Gaftools.Props.TieA2"], "C07": ["Gaftools.Props.C07", "Gaftools.Props.C07b", "Gaftools.Props.C07c", "Gaftools.Props.TieA", "Gaftools.Props.TieA5"], "C18": ["Gaftools.Props.C18", "Gaftools.Props.C18b", "Gaftools.Props.TieA2"]}[prop])
+    ck.lean_build({"C06": ["Gaftools.Props.C06", "Gaftools.Props.C06b", "Gaftools.Props.C06c", "Gaftools.Props.C06d", "Gaftools.Props.C06e", "Gaftools.Props.C06f", "Gaftools.Props.C06g", "Gaftools.Props.TieA2"], "C07": ["Gaftools.Props.C07", "Gaftools.Props.C07b", "Gaftools.Props.C07c", "Gaftools.Props.GfaText", "Gaftools.Props.TieA", "Gaftools.Props.TieA5"], "C18": ["Gaftools.Props.C18", "Gaftools.Props.C18b", "Gaftools.Props.TieA2"]}[prop])
     ck.audit("%s.lean" % prop)
     rng = ck.rng
     quick = ck.tier == "quick"
@@ -441,6 +441,11 @@ def main(prop):
                         ck.violation("the written chromosomes differ from a run in which the skipped ones are absent from the request", dict(replay, good=good))
         if prop == "C07":
             roundtrip_io(ck, tmp, 150 if quick else 2000)
+            # the TEXT level of GFA reading and writing (line splitting, strip(), the tag regexes, overlaps, record kinds, the
+            # order of errors): Model/GfaText.lean, theorems Props/GfaText.lean (Audit/C07_extra.lean); also checks the harness's
+            # own tokeniser against the model
+            import p_gfatext
+            p_gfatext.gfatext_check(ck, tmp, 3000 if quick else 30000)
         if prop in ("C06", "C07"):
             for _ in range(1 if quick else 4):
                 big_case(ck, prop, tmp)
